@@ -93,6 +93,30 @@ fn main() {
             let d2: VecDeque<u32> = lin.iter().cloned().collect();
             same("VecDeque: two deques with equal content", &d, &d2, &format!("{lin:?}"));
         }
+        {
+            // optional features: SmallVec (inline vs spilled vs Vec), BitVec (aligned vs offset head, any storage type)
+            use smallvec::SmallVec;
+            use bitvec::prelude::*;
+            let few: Vec<u32> = keys.iter().cloned().take(3).collect();
+            let inl: SmallVec<[u32; 8]> = SmallVec::from_vec(few.clone());
+            let spl: SmallVec<[u32; 1]> = SmallVec::from_vec(few.clone());
+            same("SmallVec inline vs spilled", &inl, &spl, &format!("{few:?}"));
+            same("SmallVec vs Vec", &inl, &few, &format!("{few:?}"));
+            let bits: Vec<bool> = (0..(round % 70)).map(|i| (i * 7 + i / 3) % 3 != 0).collect();
+            let mut b1: BitVec<u8, Lsb0> = BitVec::new();
+            for b in &bits { b1.push(*b); }
+            let mut pad: BitVec<u8, Lsb0> = bitvec![u8, Lsb0; 1, 0, 1];
+            for b in &bits { pad.push(*b); }
+            let b2: BitVec<u8, Lsb0> = pad[3..].to_bitvec();
+            let mut b3 = pad.clone(); b3.drain(..3);
+            same("BitVec: head offset must not matter", &b1, &b2, &format!("{bits:?}"));
+            same("BitVec: drained prefix must not matter", &b1, &b3, &format!("{bits:?}"));
+            let mut w: BitVec<u64, Msb0> = BitVec::new();
+            for b in &bits { w.push(*b); }
+            let mut w2: BitVec<u64, Msb0> = BitVec::with_capacity(4096);
+            for b in &bits { w2.push(*b); }
+            same("BitVec: capacity must not matter", &w, &w2, &format!("{bits:?}"));
+        }
         let st = format!("s{round}");
         same("String vs &str vs Box<str> vs Arc<str>", &st, st.as_str(), &st);
         same("String vs Arc<str>", &st, &Arc::<str>::from(st.as_str()), &st);
@@ -170,6 +194,12 @@ fn main() {
     all_distinct("i64 values", &ints);
     all_distinct("LinkedList vs order", &[LinkedList::from_iter([1u8, 2]), LinkedList::from_iter([2u8, 1]), LinkedList::from_iter([1u8]), LinkedList::new()]);
     all_distinct("char / str", &["".to_string(), "\0".to_string(), "a".to_string(), "é".to_string(), "e\u{301}".to_string(), "aa".to_string()]);
+    {
+        use bitvec::prelude::*;
+        let mk = |v: &[u8]| -> BitVec<u8, Lsb0> { v.iter().map(|x| *x != 0).collect() };
+        all_distinct("BitVec content / length", &[mk(&[]), mk(&[0]), mk(&[1]), mk(&[0, 0]), mk(&[0, 1]), mk(&[1, 0]), mk(&[0; 8]), mk(&[0; 9]), mk(&[1, 0, 0, 0, 0, 0, 0, 0, 0])]);
+        all_distinct("(BitVec,BitVec) boundary", &[(mk(&[1, 0]), mk(&[1])), (mk(&[1]), mk(&[0, 1])), (mk(&[1, 0, 1]), mk(&[])), (mk(&[]), mk(&[1, 0, 1]))]);
+    }
     all_distinct("bool tuples", &[(true, false), (false, true), (true, true), (false, false)]);
     all_distinct("Range vs RangeInclusive fields", &[(1u8..2).start as u16 * 256 + 2, 0x0201]);
     all_distinct("Duration", &[std::time::Duration::new(1, 0), std::time::Duration::new(0, 1), std::time::Duration::new(0, 0), std::time::Duration::new(1, 1)]);
